@@ -10,9 +10,11 @@ answer   {"ok":true,"steps":n,"actions":k,"ooo":..,"tmo":..}  |  {"ok":false,"at
 
 thread: "r" reader, "s" sorter, "c" consumer, "w<i>" worker i.  Payload kinds: 0 item, 1 StopIteration, 2 ExceptionWrapper,
 3 nothing (timeout / queue.Empty).  Table event → model action(s):
-  r init | isset b | acq b | enter | leave k v | append ver snap | put k v idx
+  r init | isset b | acq b | enter | leave k v | append ver snap | put k v idx | exit (`_populate_queue` returned after the terminal)
   w isset b | empty b | get k v idx | put k v idx | die
   s isset b | get k v idx | put k v idx      (sHave without a put and the final sDrain are thread-local: replayed silently)
+  c get 3 = queue.Empty: cGetT, which also decides (reader not alive ∧ sem = max → early stop; a worker not alive → dead-worker
+    path: isset / mpisset / set / mpset are then cDeadIsSet / cDeadMpIsSet / cDeadSet / cDeadMpSet, the return is an error)
   c boot b | isset b | mpisset b (then cChk, a read of `_done`/`_sem._value` in the same atomic section) | set | mpset   (inside next(): cSet/cMpSet; outside: `_shutdown`'s cShutSet/cShutMpSet)
     | get k v idx | release newvalue | pop idx has snap | ret k v | state snap steps
     (an `isset` while the model consumer is idle is the start of a `next()` call: cCall first)
@@ -135,6 +137,7 @@ def stepEv (c : Cfg) (st : St) (e : Ev) : Except String St := do
         need (msgIs m e.x e.y e.z) s!"reader put ({e.x},{e.y},{e.z}), model {showMsg m}"
         act c st .rPut
       | p => throw s!"reader put while model reader is at {repr p}"
+    | "exit" => if s.rpc == .exited then pure st else act c st .rRet   -- after `is_set() == True` the model reader has already exited
     | o => throw s!"unknown reader op {o}"
   else if e.th == "s" then
     match e.op with
@@ -162,20 +165,28 @@ def stepEv (c : Cfg) (st : St) (e : Ev) : Except String St := do
     match e.op with
     | "boot" => act c st (if e.x == 1 then .cBoot else .cBootT)
     | "isset" => do
+      if st.s.cpc == .dchk1 then
+        need (b2n st.s.stop == e.x) s!"consumer is_set (dead-worker path): model {st.s.stop}"
+        act c st .cDeadIsSet
+      else
       let st ← if st.s.cpc == .idle then act c st .cCall else pure st
       need (b2n st.s.stop == e.x) s!"consumer is_set: model {st.s.stop}"
       let st' ← act c st .cIsSet
       pure (if st'.s.cpc == .idle then { st' with lastRet := some (1, 0) } else st')
     | "mpisset" => do
       need (b2n s.mpstop == e.x) s!"consumer mp is_set: model {s.mpstop}"
+      if s.cpc == .dchk2 then act c st .cDeadMpIsSet else
       let st' ← act c st .cMpIsSet
       if st'.s.cpc == .idle then pure { st' with lastRet := some (1, 0) }
       else act c st' .cChk
-    | "set" => act c st (if s.cpc == .set1 then .cSet else .cShutSet)
+    | "set" => act c st (if s.cpc == .set1 then .cSet else if s.cpc == .dset1 then .cDeadSet else .cShutSet)
     | "mpset" =>
       if s.cpc == .set2 then do
         let st' ← act c st .cMpSet
         pure { st' with lastRet := some (1, 0) }
+      else if s.cpc == .dset2 then do
+        let st' ← act c st .cDeadMpSet
+        pure { st' with lastRet := some (2, 0) }
       else act c st .cShutMpSet
     | "get" =>
       if e.x == 3 then act c st .cGetT else
